@@ -182,7 +182,7 @@ static void exec_lp(void)
 
 /* ---- quoted values that span several lines: "a value starting with a quote being one item" ---- */
 static int q_sep, q_lines, q_ind, q_trail, q_before, q_rel, q_cfg;
-static void gen_q(void) { q_cfg = mc_choose(3); q_sep = mc_choose(3); q_lines = 2 + mc_choose(2); q_ind = mc_choose(3); q_trail = mc_choose(6); q_before = mc_choose(4); q_rel = mc_choose(2); }
+static void gen_q(void) { q_cfg = mc_choose(3); q_sep = mc_choose(3); q_lines = 1 + mc_choose(3);   /* 1 line: a value with ONE quote sign (27") */ q_ind = mc_choose(3); q_trail = mc_choose(6); q_before = mc_choose(4); q_rel = mc_choose(2); }
 static void exec_q(void)
 {
   static const char *QD[3] = { "=", ":=", "=:" }   /* non-blank delimiter sets: only they have continuation lines */, *SEP[3] = { "=", " = ", "=\t" }, *IND[3] = { "  ", "\t", "    " };
@@ -190,9 +190,12 @@ static void exec_q(void)
   const char *TRAIL[6] = { "", "   ", "\t", "   # closing", " #c", "  \t  # closing" };
   const char *TCOM[6] = { NULL, NULL, NULL, " closing", "c", " closing" };
   sbuf f = {0}, item = {0}, sig = {0}, e1 = {0};
-  sb_puts(&item, "\"line one");
-  for (int l = 1; l < q_lines; l++) sb_printf(&item, "\n%sline %d", IND[q_ind], l + 1);
-  sb_puts(&item, "\"");
+  if (q_lines == 1) sb_puts(&item, "27\"");
+  else {
+    sb_puts(&item, "\"line one");
+    for (int l = 1; l < q_lines; l++) sb_printf(&item, "\n%sline %d", IND[q_ind], l + 1);
+    sb_puts(&item, "\"");
+  }
   sb_printf(&f, "%sk%s%s%s\nafter=1\n", BEFORE[q_before], SEP[q_sep], item.s, TRAIL[q_trail]);
   sb_puts(&sig, "file=\""); sb_put_esc(&sig, f.s, f.len); sb_printf(&sig, "\" delim=\"%s\" comment=\"#\" read-as=%s", QD[q_cfg], q_rel ? "f.conf" : "absolute path");
   snprintf(mc_case_sig, sizeof mc_case_sig, "%s", sig.s);
@@ -211,7 +214,7 @@ static void exec_q(void)
     else {
       int nv = 0; while (ev->values && ev->values[nv]) nv++;
       int lines_before = q_before ? 1 : 0;
-      if (nv != 1) mc_fail(sig.s, "a value starting with a quote is reported as %d items instead of one; %s", nv, sig.s);
+      if (nv != 1) mc_fail(sig.s, "%s is reported as %d items instead of one; %s", q_lines == 1 ? "a one-line value" : "a value starting with a quote", nv, sig.s);
       else if (strcmp(ev->values[0], item.s)) { sb_put_escs(&e1, ev->values[0]); mc_fail(sig.s, "values[0] = \"%s\": not the quoted text from the opening to the closing quote without outer blanks; %s", e1.s, sig.s); }
       if (!ev->file || strcmp(ev->file, abspath)) mc_fail(sig.s, "file = \"%s\", expected \"%s\"; %s", ev->file ? ev->file : "<NULL>", abspath, sig.s);
       if (ev->line_number != (uint64_t)(lines_before + q_lines)) mc_fail(sig.s, "line_number = %llu, the entry ends on line %d; %s", (unsigned long long)ev->line_number, lines_before + q_lines, sig.s);
